@@ -1,8 +1,10 @@
 package system
 
 import (
+	"cmp"
 	"fmt"
 	"log/slog"
+	"slices"
 	"time"
 
 	"github.com/resonatehq/gocoro"
@@ -130,17 +132,23 @@ func (s *System) Tick(t int64) {
 		cqe.Callback(cqe.Completion, cqe.Error)
 	}
 
-	// add background coroutines
-	for _, bg := range s.background {
-		if !s.api.Done() && (t-bg.last) >= int64(s.config.SignalTimeout.Milliseconds()) && (bg.promise == nil || bg.promise.Completed()) {
-			bg.last = t
+	// add background coroutines, the one that has waited longest first, a
+	// coroutine that is refused keeps its turn so that a small coroutine
+	// pool cannot starve the coroutines registered last
+	background := slices.Clone(s.background)
+	slices.SortStableFunc(background, func(a, b *backgroundCoroutine) int {
+		return cmp.Compare(a.last, b.last)
+	})
 
+	for _, bg := range background {
+		if !s.api.Done() && (t-bg.last) >= int64(s.config.SignalTimeout.Milliseconds()) && (bg.promise == nil || bg.promise.Completed()) {
 			tags := map[string]string{
 				"id":   fmt.Sprintf("%s:%d", bg.name, t),
 				"name": bg.name,
 			}
 
 			if p, ok := gocoro.Add(s.scheduler, bg.coroutine(s.config, tags)); ok {
+				bg.last = t
 				bg.promise = p
 				s.coroutineMetrics(p, tags)
 			} else {
